@@ -107,7 +107,7 @@ fn probe1d<T: Fl, S>(
     quick: bool,
     out: &mut JobOut,
 ) where
-    S: Interp1DStrategy<OwnedRepr<T>, OwnedRepr<T>, Ix2>,
+    S: Interp1DStrategy<OwnedRepr<T>, OwnedRepr<T>, Ix2> + Sync,
 {
     let sg = singles(x);
     let case = |q: Vec<f64>, shape: &[usize]| {
